@@ -101,3 +101,34 @@ MUTANTS += [
          old="                line_number = (np.flatnonzero(data[header_idxs] != header)[0] + 1) * n_lines_per_entry",
          new="                line_number = (np.flatnonzero(data[header_idxs] != header)[0] + 1) * 2"),
 ]
+
+LZ = "bionumpy/bnpdataclass/lazybnpdataclass.py"
+
+MUTANTS += [
+    # ---- C04 ----------------------------------------------------------------------------
+    dict(prop="C04", name="make-contiguous-offset-sign", file=FB,
+         old="        offsets = self._entry_starts - new_starts[:-1]", new="        offsets = new_starts[:-1] - self._entry_starts"),
+    dict(prop="C04", name="make-contiguous-inplace (seeded C04-a)", file=FB,
+         old="        self._field_starts = self._field_starts - offsets[:, None]", new="        self._field_starts -= offsets[:, None]"),
+    dict(prop="C04", name="slice-assumed-contiguous", file=FB,
+         old="                              entry_ends=self._entry_ends[idx], is_contiguous=False)",
+         new="                              entry_ends=self._entry_ends[idx], is_contiguous=isinstance(idx, slice) and idx.step in (None, 1) and self._is_contiguous)"),
+    dict(prop="C04", name="concat-entry-ends-offset", file=FB,
+         old="        entry_ends = np.concatenate([b._entry_ends + offset for b, offset in zip(buffers, offsets)])",
+         new="        entry_ends = np.concatenate([b._entry_ends + offset for b, offset in zip(buffers, offsets[1:])])"),
+    dict(prop="C04", name="crlf-record-end-after-adjust", file=DLB,
+         old="        entry_ends = ends[:, -1] + 1\n        ends = cls._modify_for_carriage_return(ends, data)\n",
+         new="        ends = cls._modify_for_carriage_return(ends, data)\n        entry_ends = ends[:, -1] + 1\n"),
+    dict(prop="C04", name="vcf-modified-write-pos-not-shifted", file=VB,
+         old="        if field_name == 'position':\n            return value+1", new="        if field_name == 'position':\n            return value"),
+    dict(prop="C04", name="getitem-drops-replaced-field-index", file=LZ,
+         old="            new_dict = {key: value[idx] for key, value in self._set_values.items()}",
+         new="            new_dict = {key: value[idx] if len(value) != len(self._itemgetter[idx].buffer._buffer_extractor) else value for key, value in self._set_values.items()}"),
+    dict(prop="C04", name="concat-replaced-from-first-only", file=LZ,
+         old="                    set_names = [name for name in field_names if any(name in a._set_values for a in values)]",
+         new="                    set_names = [name for name in field_names if name in values[0]._set_values]"),
+    dict(prop="C04", name="fastq-entry-ends-off", file=OLB,
+         old="        entry_ends = tmp[::cls.n_lines_per_entry][1:]", new="        entry_ends = tmp[::cls.n_lines_per_entry][1:] - (cls.n_lines_per_entry == 4)"),
+    dict(prop="C04", name="join-fields-newline-column", file="bionumpy/io/dump_csv.py",
+         old='    lines[(n_columns - 1)::n_columns, -1] = "\\n"', new='    lines[(n_columns - 1)::n_columns, -1] = "\\n"\n    if n_columns > 9:\n        lines[(n_columns - 2)::n_columns, -1] = " "'),
+]
